@@ -239,6 +239,8 @@ func trimSpaces(s string) string {
 
 func main() {
 	c := lib.New("C02", "model_checking", 150*time.Second, 25*time.Minute)
+	// library goroutines that take part in the workload-thread phase: syncer, value-appending precommit goroutines
+	vsched.WorkDaemons = []string{"store.OpenWith", "(*ImmuStore).precommit", "(*ImmuStore).preCommitWith"}
 	c.Assume("code between two synchronisation operations is data-race free (checked separately by a free-running -race pass)")
 	c.Assume("virtual clock is fixed; tx timestamps are all equal")
 	synced := func() *store.Options { return baseOpts().WithSynced(true) }
